@@ -254,6 +254,26 @@ def run(case):
             c.cmp(f"mu={mu},bulk/stress", "NeoHooke(mu,bulk) vs neo_hooke & Volumetric", a2.gradient([F, sv])[0], b2.gradient([F, sv])[0], 1e-10, labels)
             c.cmp(f"mu={mu},bulk/elasticity", "NeoHooke(mu,bulk) vs neo_hooke & Volumetric", a2.hessian([F, sv])[0], b2.hessian([F, sv])[0], 1e-10, labels)
             c.trans += 8
+        # every parameter combination of the hand-coded class x evaluation history of its out= argument (none / fresh
+        # zeros / a buffer holding the result at other deformation gradients, as a solid body passes from its second
+        # evaluation on): all histories must agree with the AD / composite namesake evaluated plainly
+        F2 = np.ascontiguousarray(F[:, :, ::-1]) * 1.0
+        for plab, a, b in (("mu", fem.NeoHooke(mu=0.8), fem.Hyperelastic(C.neo_hooke, mu=0.8)),
+                           ("mu,bulk", fem.NeoHooke(mu=0.8, bulk=2.9), fem.Hyperelastic(C.neo_hooke, mu=0.8) & C.Volumetric(bulk=2.9)),
+                           ("bulk", fem.NeoHooke(mu=None, bulk=2.9), C.Volumetric(bulk=2.9)),
+                           ("bulk-positional-default", fem.NeoHooke(bulk=2.9), C.Volumetric(bulk=2.9))):
+            for fn in ("gradient", "hessian"):
+                ref = getattr(b, fn)([F, sv])[0]
+                got = getattr(a, fn)([F, sv])[0]
+                c.cmp(f"out-history/{plab}/{fn}/none", "hand-coded NeoHooke vs namesake", got, ref, 1e-10, labels)
+                buf = np.zeros(np.broadcast_shapes(np.shape(got), np.shape(ref)))
+                for hlab, prep in (("zeros", []), ("other", [F2]), ("other,same", [F2, F]), ("same,other,other", [F, F2, F2])):
+                    buf[...] = 0.0
+                    for Fp in prep:
+                        getattr(a, fn)([Fp, sv], out=buf)
+                    got = getattr(a, fn)([F, sv], out=buf)[0]
+                    c.cmp(f"out-history/{plab}/{fn}/{hlab}", "hand-coded NeoHooke evaluated into a re-used out= buffer vs namesake", got, ref, 1e-10, labels)
+                    c.trans += 1 + len(prep)
         return c.result(dict(case=case["key"], lattice_points=int(F.shape[2])))
     if kind == "handor":
         lat = lattice("all", seed, tier)
